@@ -84,6 +84,13 @@ def _uf(f):
 
 
 def cases(tier, seed):
+    from mc import rebuild as RB
+    for h in RB.histories(tier):
+        yield {"history": h}
+    yield from cases_(tier, seed)
+
+
+def cases_(tier, seed):
     quick = tier == "quick"
     # ---------------- (a) term tables
     for name in ("spin", "eph", "spinq", "two"):
@@ -165,7 +172,35 @@ def cases(tier, seed):
                     yield _emit(kinds, 2, t, fa, 0.0, sq)
 
 
+def run_history(desc, seed):
+    """(d) construction histories in one process: see mc/rebuild.py"""
+    from renormalizer.model import Model
+    from renormalizer.mps import Mpo
+    from mc import rebuild as RB
+    V = RB.variants()
+    viol = {}
+    nb = 0
+    for step, name in enumerate(desc["history"]):
+        basis = V[name]
+        ref = RB.dense_of(basis)
+        for algo in ("qr", "Hopcroft-Karp"):
+            try:
+                got = np.asarray(Mpo(Model(list(basis), RB.ops_of(basis)), algo=algo).todense())
+            except Exception as e:
+                sig = f"C01:history:exception:{type(e).__name__}"
+                viol.setdefault(sig, {"sig": sig, "msg": f"history {desc['history']} step {step} ({name}, {algo}): {e!r}"})
+                continue
+            nb += 1
+            if not close(got, ref, 1e-9):
+                sig = f"C01:history:mismatch:{'first' if step == 0 else 'later'}-construction"
+                viol.setdefault(sig, {"sig": sig, "msg": f"history {desc['history']}: operator number {step + 1} ({name}, {algo}) differs from its dense reference by rel {rel_err(got, ref):.2e}"})
+    return {"nontrivial": nb >= 2, "counters": {"history_constructions": nb}, "outcome": f"history:{'viol' if viol else 'ok'}", "viol": list(viol.values()),
+            "sample": {"desc": desc}}
+
+
 def run_case(desc, seed):
+    if "history" in desc:
+        return run_history(desc, seed)
     from renormalizer.model import Model
     from renormalizer.mps import Mpo
     from renormalizer.utils import Quantity
